@@ -308,6 +308,32 @@ pub fn run(ctx: &RunCtx) -> Outcome {
             return o;
         }
     }
+    // character-class syntax (the crate parses classes itself before handing them on)
+    {
+        const CLASSES: &[&str] = &[
+            "[ab]", "[^ab]", "[a-c]", "[]a]", "[^]a]", "[a\\]]", "[a\\-c]", "[a-]", "[-a]", "[\\d]", "[\\w-]", "[^\\W]", "[\\s\\S]", "[a-c&&[^b]]", "[\\w&&[^a]]", "[[:alpha:]]", "[[:^digit:]x]",
+            "[a[bc]]", "[^a[^b]]", "[\\n]", "[\\t ]", "[\\x61]", "[\\x{61}-\\x{63}]", "[\\u0061]", "[.]", "[*+?]", "[(|)]", "[{}]", "[\\^a]", "[a^]", "[é-ë]", "[\\p{L}]", "[\\PL]", "[^\\p{Lu}a]",
+            "\\p{Greek}", "\\pL", "\\PL", "[\\\\]", "[\\]\\[]", "[a-c[x-z]]", "[^\\n]", "[\\d&&[^1]]", "[A-Za-z_]", "[^-]", "[\\.-a]",
+        ];
+        let mut v = vec![];
+        for c in CLASSES {
+            let r = Raw(c.to_string(), false);
+            v.push(r.clone());
+            v.push(Repeat(Box::new(r.clone()), 1, None, Q::Greedy));
+            v.push(Group(Box::new(r.clone())));
+            v.push(Concat(vec![Assert(A::WordB), r.clone()]));
+            v.push(Concat(vec![r.clone(), Assert(A::NotWordB)]));
+            v.push(Concat(vec![Assert(A::WordB), Repeat(Box::new(r.clone()), 0, None, Q::Lazy), Lit('a')]));
+            v.push(Flags("i".into(), "".into(), Box::new(r.clone())));
+            v.push(Concat(vec![Flags("i".into(), "".into(), Box::new(r.clone())), Assert(A::WordB)]));
+            v.push(Concat(vec![Raw("[^\\n]".into(), false), r.clone()]));
+            v.push(Alt(vec![Concat(vec![Assert(A::WordB), r.clone()]), Lit('a')]));
+        }
+        let ctexts = gen::texts(&['a', 'b', 'c', '-', ']', '[', '^', '\\', '1', ' ', 'é', 'A', '.', 'x', 'α', '\n'], 2);
+        if !stage(ctx, &mut o, &plain, "character-class syntax", &v, &ctexts) {
+            return o;
+        }
+    }
     // flags and case: bases N<=3 with an upper-case literal added
     let mut fcfg = gen::common_cfg();
     fcfg.leaves = vec![Lit('a'), Lit('B'), Any, Class(false, vec![('a', 'b')]), Class(true, vec![('A', 'A')]), Perl('w'), Assert(A::StartText), Assert(A::EndText), Assert(A::WordB), Lit('é'), Lit('\n')];
